@@ -98,7 +98,10 @@ def _work(args):
         rng = prng.stream(seed, prop, family, i)
         t0 = time.time()
         try:
-            scn = mod.generate(family, rng, tier)
+            if hasattr(mod, "generate_indexed"):
+                scn = mod.generate_indexed(family, i, rng, tier)
+            else:
+                scn = mod.generate(family, rng, tier)
         except Exception as e:  # noqa
             out.append({"family": family, "index": i, "harness_error":
                         "generate: " + "".join(traceback.format_exception(type(e), e, e.__traceback__))[-2000:],
